@@ -113,12 +113,12 @@ pub enum Op {
 pub const BOARDS: [(u8, i8); 5] = [(14, 0), (21, 2), (30, -3), (10, 5), (12, -3)];
 
 // ------------------------------------------------------------------ devices
-type NbDev<const P: u8, const G: i8> = nb_device::Device<NbRadio<P, G>, SRng, 256, 4>;
-type AsDev<const P: u8, const G: i8> = async_device::Device<ARadio<P, G>, ATimer, SRng, 256, 4>;
+type NbDev<const P: u8, const G: i8, const N: usize> = nb_device::Device<NbRadio<P, G>, SRng, N, 4>;
+type AsDev<const P: u8, const G: i8, const N: usize> = async_device::Device<ARadio<P, G>, ATimer, SRng, N, 4>;
 
-enum Dev<const P: u8, const G: i8> {
-    Nb(Box<NbDev<P, G>>),
-    As(Box<AsDev<P, G>>),
+enum Dev<const P: u8, const G: i8, const N: usize> {
+    Nb(Box<NbDev<P, G, N>>),
+    As(Box<AsDev<P, G, N>>),
 }
 
 fn make_region(name: &str, bias_sb: u8, retries: usize) -> region::Configuration {
@@ -190,7 +190,7 @@ fn with_cnt(mut v: Value) -> Value {
     v
 }
 
-impl<const P: u8, const G: i8> Dev<P, G> {
+impl<const P: u8, const G: i8, const N: usize> Dev<P, G, N> {
     fn snap(&self) -> Value {
         match self {
             Dev::Nb(d) => snap_json(&d.verif_snapshot()),
@@ -216,7 +216,7 @@ fn to_rx(f: &Frame) -> RxOut {
 }
 
 impl<'a> Runner<'a> {
-    fn emit<const P: u8, const G: i8>(&mut self, dev: &mut Dev<P, G>, mut ev: Value, op: Option<&Op>) {
+    fn emit<const P: u8, const G: i8, const N: usize>(&mut self, dev: &mut Dev<P, G, N>, mut ev: Value, op: Option<&Op>) {
         self.seq += 1;
         self.hist += 1;
         ev["k"] = json!("mac");
@@ -239,7 +239,7 @@ impl<'a> Runner<'a> {
 
     /// Execute one op of a history on the device.  Returns false when the history must stop
     /// (a panic or hang was recorded).
-    fn exec<const P: u8, const G: i8>(&mut self, dev: &mut Dev<P, G>, op: &Op) -> bool {
+    fn exec<const P: u8, const G: i8, const N: usize>(&mut self, dev: &mut Dev<P, G, N>, op: &Op) -> bool {
         self.out.sync = true;
         crate::cli::watch_begin(&self.out.path, &serde_json::to_string(op).unwrap_or_default(), 20_000);
         let r = self.exec_op(dev, op);
@@ -247,7 +247,7 @@ impl<'a> Runner<'a> {
         r
     }
 
-    fn exec_op<const P: u8, const G: i8>(&mut self, dev: &mut Dev<P, G>, op: &Op) -> bool {
+    fn exec_op<const P: u8, const G: i8, const N: usize>(&mut self, dev: &mut Dev<P, G, N>, op: &Op) -> bool {
         match op {
             Op::Reset { .. } => unreachable!(),
             Op::Checkpoint => {
@@ -455,9 +455,9 @@ impl<'a> Runner<'a> {
     }
 
     #[allow(clippy::too_many_arguments)]
-    fn procedure<const P: u8, const G: i8>(
+    fn procedure<const P: u8, const G: i8, const N: usize>(
         &mut self,
-        dev: &mut Dev<P, G>,
+        dev: &mut Dev<P, G, N>,
         op: &Op,
         args: Value,
         join: Option<JoinMode>,
@@ -534,13 +534,13 @@ impl<'a> Runner<'a> {
     }
 
     /// One nb handle_event call -> one trace event.
-    fn nb_step<const P: u8, const G: i8>(
+    fn nb_step<const P: u8, const G: i8, const N: usize>(
         &mut self,
-        dev: &mut Dev<P, G>,
+        dev: &mut Dev<P, G, N>,
         kind: &str,
         extra: Value,
         op: Option<&Op>,
-        f: impl FnOnce(&mut NbDev<P, G>) -> Result<nb_device::Response, nb_device::Error<NbRadio<P, G>>>,
+        f: impl FnOnce(&mut NbDev<P, G, N>) -> Result<nb_device::Response, nb_device::Error<NbRadio<P, G>>>,
     ) -> Option<String> {
         self.env.borrow_mut().begin();
         let Dev::Nb(d) = dev else { unreachable!() };
@@ -571,9 +571,9 @@ impl<'a> Runner<'a> {
     }
 
     #[allow(clippy::too_many_arguments)]
-    fn nb_procedure<const P: u8, const G: i8>(
+    fn nb_procedure<const P: u8, const G: i8, const N: usize>(
         &mut self,
-        dev: &mut Dev<P, G>,
+        dev: &mut Dev<P, G, N>,
         op: &Op,
         args: Value,
         join: Option<JoinMode>,
@@ -672,7 +672,7 @@ impl<'a> Runner<'a> {
         true
     }
 
-    fn nb_noise<const P: u8, const G: i8>(&mut self, dev: &mut Dev<P, G>, n: u32) -> bool {
+    fn nb_noise<const P: u8, const G: i8, const N: usize>(&mut self, dev: &mut Dev<P, G, N>, n: u32) -> bool {
         use nb_device::{radio, Event};
         let r = match n % 3 {
             0 => self.nb_step(dev, "noise", json!({"args": {"n": 0}}), None, |d| {
@@ -706,16 +706,24 @@ pub type GenFn<'g> = dyn FnMut(&View) -> Option<Op> + 'g;
 /// are exhausted, `generator` (if any) supplies further ops until it returns None.
 pub fn run_history(out: &mut TraceWriter, ops: &[Op], seed: u64, generator: Option<&mut GenFn<'_>>) -> Vec<Op> {
     let Op::Reset { board, .. } = &ops[0] else { panic!("history must start with Reset") };
+    // boards 5..7: the first board with a radio buffer of 64 / 128 / 33 bytes (C18: a reception that exactly
+    // fills the MAC's buffer) instead of the usual 256
+    match *board {
+        5 => return run_typed::<14, 0, 64>(out, ops, seed, generator),
+        6 => return run_typed::<14, 0, 128>(out, ops, seed, generator),
+        7 => return run_typed::<14, 0, 33>(out, ops, seed, generator),
+        _ => {}
+    }
     match BOARDS[*board % 5] {
-        (14, 0) => run_typed::<14, 0>(out, ops, seed, generator),
-        (21, 2) => run_typed::<21, 2>(out, ops, seed, generator),
-        (30, -3) => run_typed::<30, -3>(out, ops, seed, generator),
-        (12, -3) => run_typed::<12, -3>(out, ops, seed, generator),
-        _ => run_typed::<10, 5>(out, ops, seed, generator),
+        (14, 0) => run_typed::<14, 0, 256>(out, ops, seed, generator),
+        (21, 2) => run_typed::<21, 2, 256>(out, ops, seed, generator),
+        (30, -3) => run_typed::<30, -3, 256>(out, ops, seed, generator),
+        (12, -3) => run_typed::<12, -3, 256>(out, ops, seed, generator),
+        _ => run_typed::<10, 5, 256>(out, ops, seed, generator),
     }
 }
 
-fn view_of<const P: u8, const G: i8>(dev: &mut Dev<P, G>, steps: usize) -> View {
+fn view_of<const P: u8, const G: i8, const N: usize>(dev: &mut Dev<P, G, N>, steps: usize) -> View {
     let s = dev.session();
     let snap = match dev {
         Dev::Nb(d) => d.verif_snapshot(),
@@ -740,7 +748,7 @@ fn view_of<const P: u8, const G: i8>(dev: &mut Dev<P, G>, steps: usize) -> View 
     }
 }
 
-fn run_typed<const P: u8, const G: i8>(out: &mut TraceWriter, ops: &[Op], seed: u64, mut generator: Option<&mut GenFn<'_>>) -> Vec<Op> {
+fn run_typed<const P: u8, const G: i8, const N: usize>(out: &mut TraceWriter, ops: &[Op], seed: u64, mut generator: Option<&mut GenFn<'_>>) -> Vec<Op> {
     let Op::Reset { region, front, classc, board, bias_sb, bias_retries, lead, buffer, offset, duration, session } = &ops[0]
     else {
         unreachable!()
@@ -755,15 +763,15 @@ fn run_typed<const P: u8, const G: i8>(out: &mut TraceWriter, ops: &[Op], seed: 
     }
     let sess: Option<Session> = session.as_ref().and_then(|d| serde_json::from_str(d).ok());
     let cfg = make_region(region, *bias_sb, *bias_retries);
-    let mut dev: Dev<P, G> = if front == "nb" {
-        let mut d: NbDev<P, G> =
+    let mut dev: Dev<P, G, N> = if front == "nb" {
+        let mut d: NbDev<P, G, N> =
             nb_device::Device::new(cfg, NbRadio { env: env.clone(), packet: vec![] }, SRng(env.clone()));
         if let Some(s) = sess.clone() {
             d.set_session(s);
         }
         Dev::Nb(Box::new(d))
     } else {
-        let mut d: AsDev<P, G> = async_device::Device::new_with_session(
+        let mut d: AsDev<P, G, N> = async_device::Device::new_with_session(
             cfg,
             ARadio(env.clone()),
             ATimer(env.clone()),
@@ -779,7 +787,7 @@ fn run_typed<const P: u8, const G: i8>(out: &mut TraceWriter, ops: &[Op], seed: 
     };
     let mut r = Runner { out, env, seq: 0, hist: 0 };
     let ev = json!({"ev": "reset", "region": region, "front": front, "classc": *classc as u8,
-        "maxpw": P, "gain": G, "board": board, "bias_sb": bias_sb, "bias_retries": bias_retries,
+        "maxpw": P, "gain": G, "board": board, "bufsz": N, "bias_sb": bias_sb, "bias_retries": bias_retries,
         "lead": lead, "buffer": buffer, "offset": offset, "duration": duration,
         "seeded": session.is_some() as u8, "cert": cfg!(feature = "cert") as u8, "mc": cfg!(feature = "mc") as u8});
     r.emit(&mut dev, ev, Some(&ops[0]));
@@ -1783,6 +1791,84 @@ pub fn vh_mac(a: &Args) {
                         };
                         let _ = run_history(out.shard(h), &ops, 1, Some(&mut g));
                     }
+                    h += 1;
+                }
+            }
+        }
+    }
+    println!("events={} histories={h}", out.finish());
+}
+
+/// `vh bufwalk`: receptions that exactly fill (or nearly fill) the MAC's radio buffer (C18: the adapter / radio
+/// hands the MAC exactly the bytes received).  Async devices with a radio buffer of 64, 128 and 33 bytes; an ABP
+/// session; an uplink answered in RX1, in RX2 or (Class C) between the windows by an authentic downlink of
+/// N-2 .. N bytes on air (application payload on port 5, with and without FOpts); for the 33-byte buffer also an
+/// OTAA join answered by a JoinAccept with CFList (33 bytes).  MacTrace.tla decides what each frame must do.
+pub fn vh_bufwalk(a: &Args) {
+    let mut out = crate::cli::Shards::create(&a.out, "mac", a.shards);
+    let key = [3u8; 16];
+    let appkey = [7u8; 16];
+    let addr = [9u8, 8, 7, 6];
+    let mut h = 0usize;
+    for (board, n) in [(5usize, 64usize), (6, 128), (7, 33)] {
+        for region in ["EU868", "US915"] {
+            for (classc, place) in [(false, 1u8), (false, 2), (true, 0)] {
+                for fl in [0usize, 3] {
+                    for l in [n - 2, n - 1, n] {
+                        // frame length on air: MHDR 1 + FHDR 7 + FOpts fl + FPort 1 + payload + MIC 4
+                        if l < 13 + fl {
+                            continue;
+                        }
+                        let pl = l - 13 - fl;
+                        let ops = vec![
+                            Op::Reset { region: region.into(), front: "async".into(), classc, board, bias_sb: 0, bias_retries: 1,
+                                        lead: 10, buffer: 10, offset: 0, duration: 500, session: None },
+                            Op::JoinAbp { nwk: key, app: key, addr },
+                            Op::SetDr { dr: if region == "EU868" { 5 } else { 3 } },
+                        ];
+                        let mut i = 0usize;
+                        let mut g = |view: &View| -> Option<Op> {
+                            i += 1;
+                            if i > 2 {
+                                return None;
+                            }
+                            let mut plan = Proc { tx: "done".into(), ts: 10, fault: -1, ..Default::default() };
+                            if i == 1 {
+                                let (nwk, app, ad) = view.keys?;
+                                let net = Net { nwk, app, addr: ad, sent: vec![] };
+                                let fopts: Vec<u8> = if fl == 3 { vec![0x06, 0x06, 0x06] } else { vec![] };
+                                let data: Vec<u8> = (0..pl).map(|x| (x * 7 + 1) as u8).collect();
+                                let bytes = net.data(view.fcnt_down.map(|x| x + 1).unwrap_or(0), false, false, &fopts, 5, &data, false, false);
+                                let f = Frame { bytes, snr: 5, intent: format!("auth:bufwalk:n={n}:len={l}") };
+                                match place {
+                                    1 => plan.rx1.push(f),
+                                    2 => plan.rx2.push(f),
+                                    _ => plan.c1.push(f),
+                                }
+                            }
+                            Some(Op::Send { port: 4, data: vec![i as u8], confirmed: false, draws: vec![], plan })
+                        };
+                        let _ = run_history(out.shard(h), &ops, 1, Some(&mut g));
+                        h += 1;
+                    }
+                }
+            }
+            if n == 33 {
+                // a JoinAccept with CFList is 33 bytes on air
+                let fixed = region == "US915";
+                let (cft, cf): (i32, Vec<u8>) = if fixed { (1, vec![0xff, 0, 0, 0, 0, 0, 0, 0, 0x01]) } else { (0, [freq3(867_100_000), freq3(867_300_000), freq3(0), freq3(0), freq3(0)].concat()) };
+                for win in [1u8, 2] {
+                    let ja = Net::join_accept(&appkey, [1, 0, 0], [1, 2, 3], [1, 2, 3, 4], 0x00, 1, cft, &cf);
+                    let mut plan = Proc { tx: "done".into(), ts: 10, fault: -1, ..Default::default() };
+                    let f = Frame { bytes: ja, snr: 5, intent: "ja:bufwalk:33".into() };
+                    if win == 1 { plan.rx1.push(f) } else { plan.rx2.push(f) }
+                    let ops = vec![
+                        Op::Reset { region: region.into(), front: "async".into(), classc: false, board, bias_sb: 0, bias_retries: 1,
+                                    lead: 10, buffer: 10, offset: 0, duration: 500, session: None },
+                        Op::JoinOtaa { appkey, deveui: [1, 2, 3, 4, 5, 6, 7, 8], appeui: [8, 7, 6, 5, 4, 3, 2, 1], draws: vec![], plan },
+                        Op::Send { port: 4, data: vec![1], confirmed: false, draws: vec![], plan: Proc { tx: "done".into(), ts: 10, fault: -1, ..Default::default() } },
+                    ];
+                    let _ = run_history(out.shard(h), &ops, 1, None);
                     h += 1;
                 }
             }
